@@ -87,6 +87,12 @@ def owner(framing, context, front=None, **opts):
         Defaults.IgnoreMissingSlaves = bool(opts.get('ignore_missing_slaves', False))
         Defaults.broadcast_enable = bool(opts.get('broadcast_enable', False))
         kw = {}
+    elif opts.get('defaults_opposite'):
+        # the process-wide defaults say the opposite of the explicit keywords, which have to win
+        saved = (Defaults.IgnoreMissingSlaves, Defaults.broadcast_enable)
+        Defaults.IgnoreMissingSlaves = not bool(opts.get('ignore_missing_slaves', False))
+        Defaults.broadcast_enable = not bool(opts.get('broadcast_enable', False))
+        kw = {'broadcast_enable': bool(opts.get('broadcast_enable', False)), 'ignore_missing_slaves': bool(opts.get('ignore_missing_slaves', False))}
 
     def construct(k, ctx):
         if front == 'sync-tcp':
@@ -424,6 +430,13 @@ def _tw_build(kind, context, framing, opts):
         Defaults.IgnoreMissingSlaves = ign
         try:
             return cls(context, framer=FRAMER[framing])
+        finally:
+            Defaults.IgnoreMissingSlaves = old
+    if opts.get('defaults_opposite'):
+        old = Defaults.IgnoreMissingSlaves
+        Defaults.IgnoreMissingSlaves = not ign
+        try:
+            return cls(context, framer=FRAMER[framing], ignore_missing_slaves=ign)
         finally:
             Defaults.IgnoreMissingSlaves = old
     return cls(context, framer=FRAMER[framing], ignore_missing_slaves=ign)
